@@ -1,6 +1,7 @@
 """C18 - zone lattice laws.  Correspondence: zleb/join/meet of Model/Lattice.v against
 is_subseteq/join/meet of the live classes; oracle: the lattice laws on the live classes."""
 import inspect
+import os
 import itertools
 
 from vcommon import coqrun
@@ -170,9 +171,30 @@ def oracle(ctx, E, tag):
     ctx.count(f"oracle_pairs[{tag}]", n * n)
 
 
+def translated_model(ctx):
+    """lattice.py translated to Gallina on every run (harness/gen/lattice_translate.py, fail-closed); the generated order, join,
+    meet, top and bottom must be provably the hand-written model of Model/Lattice.v, so the laws hold of the code as written
+    for elements of EVERY depth (the row comparison below is exhaustive for one constructor layer only)"""
+    from gen import lattice_translate
+    from vcommon import paths
+    src_path = os.path.join(paths.REPO, "src/bloqade/shuttle/analysis/zone/lattice.py")
+    try:
+        body = lattice_translate.generate(src_path)
+    except Exception as e:     # Untranslatable, or a source the translator cannot even parse: fail closed
+        ctx.obligation("lattice.py is inside the translated fragment (generated model Gen_C18.v)", False, f"{type(e).__name__}: {e}"[:300])
+        return
+    ctx.obligation("lattice.py is inside the translated fragment (generated model Gen_C18.v)", True)
+    ok, log = coqrun.compile_lemma_file(ctx.bdir, "Gen_C18", body)
+    closed = log.count("Closed under the global context")
+    ctx.obligation("generated model = hand model (gen_zleb_eq, gen_join_eq, gen_meet_eq, gen_top_eq, gen_bottom_eq) and the lattice laws "
+                   "restated for the generated definitions compile, closed under the global context", ok and closed >= 4, log[-600:])
+    ctx.extra["generated_model"] = {"file": "build/C18/Gen_C18.v", "lines": body.count("\n"), "closed_theorems_printed": closed}
+
+
 def run(ctx):
     rng = ctx.rng
     reflect_classes(ctx)
+    translated_model(ctx)
     E = elems1(NAMES)
     n = len(E)
     ctx.rule = ("elements: the 7 atoms over names {a,b} and every element with one constructor layer over them "
